@@ -19,7 +19,9 @@ RULE = (
     "into a scratch directory): name must be <MessageClass>-<True|False>-<sha256(content)>.json; label == verdict of "
     "the independent strict validator of refmodel.py for that message class (declared properties only, required "
     "present, integer ranges, closed enumerations, literal values, int32-or-string id); every message class has >=1 "
-    "True vector; every True vector is accepted by the Python converter. non-trivial = every vector; distinct = file name (content hash)"
+    "True vector; every True vector is accepted by the Python converter; plus a history of generate() calls inside one "
+    "process over Hypothesis-evolved variants of a reduced model (shared structure names, different properties), each "
+    "batch judged against its own model. non-trivial = every vector; distinct = file name (content hash)"
 )
 
 NAME_RE = re.compile(r"^(\w+)-(True|False)-([0-9a-f]{64})\.json$")
@@ -88,6 +90,51 @@ def _work(names: List[str]) -> dict:
     return judge_vectors(model, table, vectors, sub)
 
 
+def in_process_history(ctx: Ctx, base: dict) -> dict:
+    """a history of generate() calls in ONE process over models that share structure names but differ in their
+    properties (Hypothesis-evolved variants of a reduced closed sub-model); every batch is judged against its own model.
+    Runs in a forked child so that the plugin's module state starts fresh and cannot leak into this process."""
+    from .. import evolve
+    from ..hyp import mini
+    from .c16 import submodel
+    from .c19 import in_child
+
+    small = submodel(base, ["$/logTrace", "$/setTrace", "textDocument/hover", "window/showMessageRequest", "workspace/symbol"])
+    variants = [small]
+    drawn = []
+    mini(evolve.evolved(small, 1, 3, allow={"E2", "E7", "E4"}), 4, (ctx.seed, "C17", "history"), lambda x: drawn.append(x))
+    variants += [d for d, _ in drawn[1:]]
+    rounds = (variants * 3)[: 9 if ctx.quick else 24]
+
+    def child(rounds_):
+        import gc
+        import logging
+        from .. import evosubject
+        from generator.plugins.testdata import testdata_generator as tg
+        logger = logging.getLogger("lspverif-null")
+        logger.disabled = True
+        out = {"vectors": 0, "findings": [], "rounds": 0}
+        for i, d in enumerate(rounds_):
+            spec = evosubject.load_model(d)
+            vectors = tg.generate(spec, logger)
+            model = Model(d)
+            res = judge_vectors(model, class_table(model), list(vectors.items()), None)
+            out["vectors"] += res["evaluations"]
+            out["rounds"] += 1
+            for f in res["findings"][:5]:
+                out["findings"].append([f[0], f[1], f"in-process round {i + 1}", f[3][:300]])
+            del spec, vectors
+            gc.collect()
+        return out
+
+    res = in_child(child, rounds, timeout=900)
+    if res is None:
+        return {"vectors": 0, "rounds": 0, "note": "timed out (inconclusive)"}
+    for f in res["findings"]:
+        ctx.finding((f[0], f[1], "in-process-history"), f"{f[2]}: {f[3]}", {"round": f[2]})
+    return {"vectors": res["vectors"], "rounds": res["rounds"], "distinct_models": len(variants)}
+
+
 def run(ctx: Ctx) -> None:
     doc = load_doc(repo_path("generator", "lsp.json"))
     model = Model(doc)
@@ -123,12 +170,15 @@ def run(ctx: Ctx) -> None:
     for cls in table:
         if true_by_class.get(cls, 0) == 0 and names:
             ctx.finding(("no-true-vector", cls, "-"), "message class receives no True vector", {"class": cls})
+    inproc = in_process_history(ctx, doc)
+    evaluations += inproc["vectors"]
     if names and len(names) < 1000:
         raise HarnessError(f"only {len(names)} vectors found")
     ctx.coverage.update({
         "evaluations": max(evaluations, 1), "distinct_nontrivial": len(names), "rule": RULE, "samples": samples[:4],
         "exhaustive": True, "vectors": len(names), "labels": dict(labels), "message_classes": len(table),
         "classes_with_true_vector": sum(1 for c in table if true_by_class.get(c, 0) > 0),
+        "in_process_history": inproc,
     })
     ctx.assumptions = [
         "strict reading: an empty structure/literal is an open object; result and error may coexist in a response; undeclared params may be absent or null",
